@@ -27,6 +27,7 @@ type propDef struct {
 	quickSeconds    int
 	thoroughSeconds int
 	race            bool
+	crashy          bool // write the plan to disk before each run: the run may kill the process
 	level           string
 	explanation     string
 	assumptions     []string
